@@ -48,6 +48,28 @@ def run_c11(tier, seed, replay):
     cat, sa, da = mode_a_laws(wd, 3 if thorough else 2, 14 if thorough else 4)
     laws = cat["laws"]
     oracles = cat["oracles"]
+    # the saturation loop as written vs the least fixed point vs graph reachability, all argument pairs
+    sat_nets = [("sat_osc", "a -| b\nb -> a\n$a: !b\n$b: a\n"), ("sat_steady", "a -?? a\nb -?? b\na -?? b\n$a: a\n$b: a & b\n"),
+                ("sat_free", "a -> b\nb -?? b\n$b: a | b\na -?? a\n$a: a\n")]
+    if thorough:
+        sat_nets.append(("sat_ring3", "a -> b\nb -> c\nc -| a\n$a: !c\n$b: a\n$c: b\n"))
+
+    def sat_one(item):
+        sid, mdl = item
+        pth = os.path.join(wd, sid + ".aeon")
+        open(pth, "w").write(mdl)
+        desc = json.loads(common.harness(["describe", "aeon", pth]))
+        fp = os.path.join(wd, sid + ".json")
+        json.dump({"net": desc}, open(fp, "w"))
+        return common.run_tlc("MC_Saturation.tla", "MC_Saturation.cfg", os.path.join(wd, "meta-" + sid), env={"NETFILE": fp}, timeout=3000)
+
+    with concurrent.futures.ThreadPoolExecutor(max_workers=4) as ex:
+        for out, rc, wall in ex.map(sat_one, sat_nets):
+            if "No error has been found" not in out:
+                raise ToolError("MC_Saturation: the saturation loop model does not compute the least fixed point:\n" + out[-2500:])
+            g, d = common.tlc_counts(out)
+            sa += g
+            da += d
     # ---- small networks: both sides judged point-wise against the reference semantics
     sizes = [3] * (6 if thorough else 3) + ([4] * 2 if thorough else [2])
     nets = common.probe_networks(semprops.fixed_nets()) + semprops.network_pool(rng, common.probe_networks, sizes)
@@ -153,7 +175,8 @@ def run_c11(tier, seed, replay):
     samples = [{"law": l["id"], "lhs": gen.render(l["lhs"]), "rhs": gen.render(l["rhs"])} for l in laws[:3]] + facts[:2]
     return runner.report("C11", tier, seed, t0, items, verdicts, ["denote", "equal", "law"], stats,
                          {"samples": samples, "laws": len(laws), "oracle_laws": len(oracles), "big_models": models_info,
-                          "mode_A": {"structures_up_to_states": 3 if thorough else 2, "states": da},
+                          "mode_A": {"structures_up_to_states": 3 if thorough else 2, "states": da,
+                                     "modules": "MC_Laws (every law on all small Kripke structures), MC_Saturation (saturation loop as written = least fixed point = constrained backward reachability, all argument pairs on small networks)"},
                           "rule": "mode A: every law of spec/Laws.tla on all total Kripke structures up to the bound x all argument sets (TLC); small networks: both sides of every law evaluated through the API with random argument sets and judged against Hctl.Sat and equal; bundled benchmark models: the TLC-exported catalogue instantiated with pseudo-random argument sets, BDD equality logged and checked by spec/Trace_Laws.tla; EF/AG/EU also against reach_backward / trap_forward / Reachability::reach_bwd"},
                          runner.ASSUME_SEM + ["on benchmark-size models only agreement between two computations is checked (law replay), not agreement with the reference semantics"],
                          lambda it, failed: {"property": "C11", "failed_judgements": failed, "item": it, "recorded": byid.get(it["id"])})
